@@ -42,81 +42,7 @@ def walkers(prog, prefix=None):
     return out
 
 
-class Unknown(Exception):
-    pass
-
-
-def eval_idx(t, env):
-    """integer value of a guard term under env: {'index': predicate->int, ...}; env(t) returns an int for leaves it knows.
-    Option values are ('opt', v|None). Raises Unknown for anything else (the rule then does not decide exactness)."""
-    v = env(t)
-    if v is not None:
-        return v
-    if not isinstance(t, tuple) or not t:
-        raise Unknown(repr(t))
-    k = t[0]
-    if k == "const" and isinstance(t[2], int):
-        return t[2]
-    if k in ("cast",):
-        return eval_idx(t[2], env)
-    if k in ("copy", "move", "deref", "ref"):
-        return eval_idx(t[1], env)
-    if k == "field" and t[2] == "0" and isinstance(t[1], tuple) and t[1][0] == "bin" and t[1][1].endswith("WithOverflow"):
-        return eval_idx(("bin", t[1][1][:-len("WithOverflow")], t[1][2], t[1][3]), env)
-    if k == "bin":
-        a, b = eval_idx(t[2], env), eval_idx(t[3], env)
-        if not isinstance(a, int) or not isinstance(b, int):
-            raise Unknown(mir.show(t))
-        op = t[1].replace("Unchecked", "")
-        if op == "Add":
-            return a + b
-        if op == "Sub":
-            if a < b:
-                raise Unknown("underflow")
-            return a - b
-        if op == "Mul":
-            return a * b
-        if op == "Div" and b:
-            return a // b
-        if op == "Rem" and b:
-            return a % b
-        if op == "Shl":
-            return a << b
-        if op == "Shr":
-            return a >> b
-        if op == "BitAnd":
-            return a & b
-        raise Unknown(mir.show(t))
-    if k == "call":
-        nm = t[1].rsplit("::", 1)[-1]
-        args = t[2]
-        if nm in ("checked_shr", "checked_shl") and len(args) == 2:
-            a, b = eval_idx(args[0], env), eval_idx(args[1], env)
-            if b >= 64:
-                return ("opt", None)
-            return ("opt", (a >> b) if nm == "checked_shr" else ((a << b) & (2 ** 64 - 1)))
-        if nm == "unwrap_or" and len(args) == 2:
-            o = eval_idx(args[0], env)
-            if isinstance(o, tuple) and o[0] == "opt":
-                return eval_idx(args[1], env) if o[1] is None else o[1]
-        if nm in ("from", "into", "clone") and len(args) == 1:
-            return eval_idx(args[0], env)
-    raise Unknown(mir.show(t))
-
-
-def eval_atom(kind, args, env):
-    if kind == "eq":
-        return eval_idx(args[0], env) == eval_idx(args[1], env)
-    if kind == "lt":
-        a, b = eval_idx(args[0], env), eval_idx(args[1], env)
-        if not isinstance(a, int) or not isinstance(b, int):
-            raise Unknown("lt on non-int")
-        return a < b
-    if kind == "is_some":
-        o = eval_idx(args[0], env)
-        if isinstance(o, tuple) and o[0] == "opt":
-            return o[1] is not None
-    raise Unknown(kind)
+from .termeval import Unknown, Overflow, ev as eval_idx, ev_atom as eval_atom  # noqa: E402,F401
 
 
 def make_env(body, idxpos, proofpos, idx, L, walking=None, walk_val=None):
